@@ -5,7 +5,7 @@ import io, re, ast
 
 ID = 'C19'
 COQ_PROPS = ['Props/C19.v']
-COQ_IMPORTS = ['Prims', 'CaseLib', 'IntCodec', 'Print']
+COQ_IMPORTS = ['Prims', 'CaseLib', 'IntCodec', 'Print', 'PrintPP']
 RULE = ('str/repr for all contents and lengths (every residue mod 4 and mod 3, 0..40 exhaustively and around the 1000-bit truncation limit) x four classes x pos: re-parse / eval round trip, '
         'truncation mark and true length; pp() for all pairs of bin/hex/oct/bytes formats x group sizes x widths 0..200 x separators x show_offset x lsb0/no_color: digits in order, groups never split, '
         'line widths, no escape sequences under no_color; Array.__repr__ re-evaluated for unscaled dtypes. non-trivial = length not a multiple of 4 or a pp with two formats; distinct by arguments')
@@ -38,6 +38,18 @@ def gen_cases(rng, tier):
         d = rng.choice(['uint8', 'int7', 'hex4', 'bin3', 'float16', 'float32', 'bool', 'bytes2', 'uintle16', '>h', 'oct3'])
         yield {'op': 'array_repr', 'dtype': d, 'n': rng.randrange(0, 6), 'trail': rand_bits(rng, rng.choice([0, 0, 1, 3])), 'seed': rng.randrange(1 << 30)}
     yield {'op': 'maxchars'}
+    # the layout arithmetic of _pp against PrintPP.v: bits on the first (full) line and its width, for every kind of format pair
+    BPC = {'bin': 1, 'oct': 3, 'hex': 4, 'bytes': 8}
+    import math
+    for _ in range(300 if tier == 'quick' else 6000):
+        f1 = rng.choice(['bin', 'oct', 'hex'])
+        f2 = rng.choice([None, None, 'bin', 'oct', 'hex', 'bytes'])
+        if f2 == f1: f2 = None
+        l = BPC[f1] * (BPC[f2] if f2 else 1) // math.gcd(BPC[f1], BPC[f2] if f2 else 1)
+        g = rng.choice([0, 0, l, 2 * l, 3 * l, 4 * l, 8 * l])
+        n = 24 * max(g, 8) * rng.choice([2, 5, 13])
+        yield {'op': 'pplayout', 'f1': f1, 'f2': f2, 'g': g, 'n': n, 'seed': rng.randrange(1 << 30), 'width': rng.choice([0, 1, 10, 40, 60, 61, 62, 63, 80, 100, 120, 160, 200, rng.randrange(0, 260)]),
+               'sep': rng.choice([' ', ' ', '', '__', ', ']), 'show_offset': rng.random() < 0.5}
 
 def kind(c): return c['op']
 
@@ -65,6 +77,31 @@ def run_impl(c):
         buf = io.StringIO()
         try:
             return attempt(lambda: (s.pp(c['fmt'], width=c['width'], sep=c['sep'], show_offset=c['show_offset'], stream=buf), buf.getvalue())[1])
+        finally:
+            bitstring.options.no_color = False
+    if op == 'pplayout':
+        import random
+        BPC = {'bin': 1, 'oct': 3, 'hex': 4, 'bytes': 8}
+        g = c['g']
+        spell = lambda f: f"{f}:{g // 8}" if f == 'bytes' else f"{f}:{g}"
+        fmt = spell(c['f1']) + ((', ' + spell(c['f2'])) if c['f2'] else '')
+        s = Bits(bin=rand_bits(random.Random(c['seed']), c['n'], 'rand'))
+        bitstring.options.no_color = True
+        buf = io.StringIO()
+        try:
+            def f():
+                s.pp(fmt, width=c['width'], sep=c['sep'], show_offset=c['show_offset'], stream=buf)
+                lines = buf.getvalue().split('\n')
+                body = lines[1:lines.index(']')] if ']' in lines else lines[1:-2]
+                first = body[0]
+                row = first
+                if c['show_offset']: row = first.split(': ', 1)[1]
+                col1 = row.split(' : ')[0] if c['f2'] else row
+                digits = col1
+                for ch in c['sep']: digits = digits.replace(ch, '')
+                digits = digits.replace(' ', '')
+                return {'bits': len(digits) * BPC[c['f1']], 'chars': len(first), 'lines': len(body), 'fmt': fmt}
+            return attempt(f)
         finally:
             bitstring.options.no_color = False
     if op == 'array_repr':
@@ -190,6 +227,14 @@ def oracle(c, obs):
             return None if obs[1] == 'ValueError' else f"pp({c['fmt']!r}, width={c['width']}) raised {obs}"
         msg = check_pp(c, obs[1])
         return None if msg is None else f"pp({c['fmt']!r}, width={c['width']}, sep={c['sep']!r}, show_offset={c['show_offset']}, lsb0={c['lsb0']}) on {len(c['bits'])} bits: {msg}"
+    if op == 'pplayout':
+        if obs[0] != 'ok': return f"pp layout case {c} raised {obs}"
+        o = obs[1]
+        unit = c['g'] if c['g'] else (24 if c['f2'] else {'bin': 1, 'oct': 3, 'hex': 4}[c['f1']])
+        if c['width'] > 0 and o['chars'] > c['width'] and o['bits'] > unit:
+            return f"pp({o['fmt']!r}, width={c['width']}, sep={c['sep']!r}, show_offset={c['show_offset']}): first line has {o['chars']} characters for {o['bits']} bits (unit {unit})"
+        if c['g'] and o['lines'] > 1 and o['bits'] % c['g']: return f"pp({o['fmt']!r}): {o['bits']} bits on a line splits a group of {c['g']}"
+        return None
     if op == 'array_repr':
         if obs[0] != 'ok': return f"Array repr {c} raised {obs}"
         return None if obs[1][1] and obs[1][2] else f"eval(repr(Array)) differs: {obs[1][0][:100]}"
@@ -199,6 +244,11 @@ def classify(c, obs): return None
 
 HEX = '0123456789abcdef'
 def coq_check(c, obs):
+    if c['op'] == 'pplayout' and obs[0] == 'ok' and obs[1]['lines'] > 1:
+        BPC = {'bin': 1, 'oct': 3, 'hex': 4, 'bytes': 8}
+        o = obs[1]
+        a = f"(mkpp {c['n']} {BPC[c['f1']]} {copt(BPC[c['f2']] if c['f2'] else None, cz)} {c['g']} {cz(c['width'])} {len(c['sep'])} {cbool(c['show_offset'])})"
+        return f"(max_bits_per_line {a} =? {o['bits']}) && (line_chars {a} {o['bits']} =? {o['chars']})"
     if c['op'] == 'maxchars' and obs[0] == 'ok': return f"(MAX_CHARS =? {obs[1]})"
     if c['op'] == 'str' and obs[0] == 'ok':
         st = obs[1]['str']
